@@ -370,36 +370,44 @@ def r7_lhs(repo: Repo, rep):
                   fi.site(st.node), fi.fq, "column i of the result receives axis i", dump(st.raw)[:60] if st.raw is not None else "", dump(st.raw)[:60] if st.raw is not None else "")
         v = st.value
         good = isinstance(v, ast.Subscript) and isinstance(v.slice, ast.Call) and attr_chain(v.slice.func) == "torch.randperm" and dump(v.slice.args[0]) == "self.n_points"
-        perm_in_loop = good and any(e.loop >= 1 for e in p.events if e.value is not None and def_id(e.value) == def_id(v.slice) and e.kind == "eval")
+        pid = def_id(v.slice) if good else None
+        perm_in_loop = good and any(e.loop >= 1 and e.value is not None and any(def_id(n) == pid for n in ast.walk(e.value)) for e in p.events)
         rep.check(R, good and perm_in_loop, fi.site(st.node), fi.fq, "axis points permuted by a fresh randperm(n) drawn inside the axis loop", dump(v)[-80:], "perm: " + dump(v.slice)[:40] if good else dump(v)[:60])
         if good:
-            i = axis[0] if axis else "i"
-
-            def atom(n, ev, i=i):
-                if isinstance(n, ast.Subscript) and dump(n.value) == bb:
-                    t = dump(n.slice).replace(" ", "")
-                    if t == f"2*{i}":
-                        return RF.atom("LO")
-                    if t == f"2*{i}+1":
-                        return RF.atom("HI")
-                if isinstance(n, ast.Attribute) and dump(n) == "self.n_points":
-                    return RF.atom("n")
-                if isinstance(n, ast.Subscript) and isinstance(n.value, ast.Call) and attr_chain(n.value.func) == "torch.linspace" and dump(n.slice) in (":-1", "slice(None, -1, None)"):
-                    c = n.value
-                    steps = kwarg(c, "steps", 2)
-                    if steps is not None and dump(steps).replace(" ", "") == "self.n_points+1":
-                        lo, hi = ev.ev(c.args[0]), ev.ev(c.args[1])
-                        return lo + (hi - lo) / RF.atom("n") * RF.atom("I")  # i-th node of n+1 nodes, last dropped
-                    return None
-                return None
-            ev = SymEval(atom)
             try:
-                val = ev.ev(v.value)
-                us = sorted(a for a in val.atoms() if a.startswith("U"))
-                want = RF.atom("LO") + (RF.atom("HI") - RF.atom("LO")) / RF.atom("n") * (RF.atom("I") + RF.atom(us[0])) if len(us) == 1 else None
+                val, want = lhs_axis_formula(p, v.value, bb, axis[0] if axis else "i")
                 rep.check(R, want is not None and val == want, fi.site(st.node), fi.fq, "axis point i = lo + (hi - lo)/n * (i + U_i)", f"{val!r}", f"{val!r}")
             except (NotSym, NotPoly) as err:
                 rep.undecided(R, fi.site(st.node), fi.fq, "stratum formula evaluable", str(err))
+
+
+def lhs_axis_formula(p, expr, bb, i):
+    """symbolic value of the un-permuted axis points: (value, lo + (hi - lo)/n * (I + U)) with I the stratum index"""
+    def atom(n, ev, i=i):
+        if isinstance(n, ast.Subscript) and dump(n.value) == bb:
+            t = dump(n.slice).replace(" ", "")
+            if t == f"2*{i}":
+                return RF.atom("LO")
+            if t in (f"2*{i}+1", f"1+2*{i}"):
+                return RF.atom("HI")
+            return RF.atom(f"box[{t}]")  # another entry of the box than this axis' bounds
+        if isinstance(n, ast.Attribute) and dump(n) == "self.n_points":
+            return RF.atom("n")
+        if isinstance(n, ast.Call) and attr_chain(n.func) == "torch.arange" and len(n.args) == 1 and dump(n.args[0]) == "self.n_points":
+            return RF.atom("I")
+        if isinstance(n, ast.Subscript) and isinstance(n.value, ast.Call) and attr_chain(n.value.func) == "torch.linspace" and dump(n.slice).replace(" ", "") in (":-1", ":self.n_points"):
+            c = n.value
+            steps = kwarg(c, "steps", 2)
+            if steps is not None and dump(steps).replace(" ", "") in ("self.n_points+1", "1+self.n_points"):
+                lo, hi = ev.ev(c.args[0]), ev.ev(c.args[1])
+                return lo + (hi - lo) / RF.atom("n") * RF.atom("I")  # i-th node of n+1 nodes, last dropped
+            return None
+        return None
+    ev = SymEval(atom)
+    val = ev.ev(expr)
+    us = sorted(a for a in val.atoms() if a.startswith("U"))
+    want = RF.atom("LO") + (RF.atom("HI") - RF.atom("LO")) / RF.atom("n") * (RF.atom("I") + RF.atom(us[0])) if len(us) == 1 else None
+    return val, want
 
 
 def r8_gaussian(repo: Repo, rep):
